@@ -232,6 +232,64 @@ def meta(run):
         run.judge(case, not bad, clause=f'whitespace / separator spelling changes the result: {bad[:2]}', part='whitespace')
 
 
+
+# ------------------------------------------------------------------ character runs no token contains, through the workbook reader
+FOREIGN = ['_xlfn.', '_xlws.', '_xlfn._xlws.', '_xlpm.', '_', '@', '~', '?', '`', '\\', '_x000D_', '[1]', '#', '{', '}']
+
+
+def foreign_runs(run):
+    """Formulas stored in a workbook FILE (the reader is part of the translation): a run of characters that no token of the grammar
+    contains makes the text unconsumable wherever it stands outside a text literal - after the last token, between two tokens, glued
+    to a token - so the formula must be rejected; inside a text literal it is part of the text and must come back unchanged."""
+    from excel2pycl.src.excel import Excel
+    texts = []            # (text, expectation): 'reject' or ('text', value)
+    for si, seed in enumerate(META_SEEDS):
+        for ji, junk in enumerate(FOREIGN):
+            places = sorted({0, len(seed), (si + ji) % (len(seed) + 1), (si * 3 + ji * 5) % (len(seed) + 1)})
+            for pl in places:
+                for glue in ('', ' '):
+                    toks = seed[:pl] + [junk] + seed[pl:]
+                    texts.append(('=' + glue.join(toks), 'reject'))
+    for junk in FOREIGN:
+        texts.append((f'="a{junk}b"', ('text', f'a{junk}b')))
+        texts.append((f'="x"&"{junk}y"', ('text', f'x{junk}y')))
+        texts.append((f'=IF("{junk}"="{junk}",1,2)', ('num', 1)))
+        texts.append((f'=IF("{junk}"="{junk}x",1,2)', ('num', 2)))
+        texts.append((f'=LEFT("{junk}{junk}",{len(junk)})', ('text', junk)))
+    texts = [t for t in texts if not (t[0].count('"') % 2 == 0 and '"#' in t[0] and t[1] == 'reject')]
+    if run.quick:
+        keep = [t for i, t in enumerate(texts) if t[1] != 'reject' or (i + run.seed) % 3 == 0]
+    else:
+        keep = texts
+    cells = dict(CONSTS)
+    for i, (t, _) in enumerate(keep):
+        cells[(25, i)] = t
+    path = os.path.join(run.scratch, 'c05_foreign.xlsx')
+    repo.write_xlsx(path, [('S', cells)])
+    excel = Excel.parse(path)
+    for i, (t, want) in enumerate(keep):
+        try:
+            src, _ = repo.with_timeout(20.0, repo.translate_entry, excel, Cell(0, 25, i))
+            try:
+                v = repo.fresh_executor(repo.load_class(src)).get_cell(Cell(0, 25, i)).value
+                obs = ('ok', v)
+            except Exception as e:  # noqa
+                obs = ('ok', f'evaluation raises {type(e).__name__}')
+        except BaseException as e:  # noqa
+            if isinstance(e, (KeyboardInterrupt, SystemExit)):
+                raise
+            o = repo.outcome_of_exception(e)
+            obs = (o['o'], o.get('t', ''))
+        if want == 'reject':
+            ok = obs[0] == 'lib'
+            clause = f'{t!r} (read from a workbook file) contains a run of characters no token contains: expected the parser exception, got {obs}'
+        else:
+            ok = obs[0] == 'ok' and obs[1] == want[1] and not isinstance(obs[1], bool)
+            clause = f'{t!r} (read from a workbook file): expected {want[1]!r}, got {obs}'
+        run.judge({'in': {'text': t, 'via': 'workbook file'}, 'ideal': want if want == 'reject' else list(want), 'obs': [str(x)[:120] for x in obs], 'kind': 'foreign_run'},
+                  ok, clause=clause, part='foreign_runs', nontrivial=True)
+        run.traces_validated += 1
+
 # ------------------------------------------------------------------ direction B
 FRAGS = ['2', '3.5', '"x"', 'A1', '$B$2', 'A1:B2', 'TRUE', '(', ')', ',', ';', '+', '-', '*', '/', '&', '%', '=', '<', '>', '<=', '<>',
          'SUM', 'IF', 'ROUND', 'MAX', 'LEFT', 'TODAY', 'IFERROR', 'COUNT', 'AND', 'VLOOKUP', 'INDEX', 'MATCH', 'DATE', '"a*"', 'MID']
@@ -361,6 +419,7 @@ def check(run):
     for part, rs in recs.items():
         run_records(run, rs, part)
     meta(run)
+    foreign_runs(run)
     trace(run)
 
 
